@@ -16,7 +16,8 @@ LEVEL_TEXT = (
     " its own scope."
 )
 NOT_DECIDED = "that every use resolves to the innermost preceding declaration for every program (follows from the discipline checked here, not decided separately)."
-TRUSTED = ["syn parser", "identifier alphabet read from the grammar"]
+ENGINE = "mirfacts+astq"
+TRUSTED = ["syn parser", "identifier alphabet read from the grammar", "rustc MIR (engines/mirfacts) for C10.10"]
 
 UV = "program_structure/src/control_flow_graph/unique_vars.rs"
 LI = "program_structure/src/intermediate_representation/lifting.rs"
@@ -377,4 +378,7 @@ def run(ctx):
     import c03
 
     ctx.include("C10.7", "every shadowing warning produced while the CFG is built reaches the display: the per-definition cache takes every report, is drained after it was filled and written unconditionally (shared with C03.1)", c03.rule_drain)
+    import dropflow
+
+    ctx.include("C10.10", "the warnings gathered while a definition is lifted are handed to the per-definition cache on every path, also when a later stage of the same definition fails (shared with C02.10)", lambda c: dropflow.rule_consumed(c, "C02.10"), only=["generate_cfg", "AnalysisRunner::cache_", "IntoCfg", "into_cfg", "floor"])
     ctx.include("C10.6", "SSA keeps same-named variables apart: phi statements are matched by the full (name, suffix) identity and only locals are versioned (shared with C14.3)", c14.rule_phis_and_locals)
